@@ -140,11 +140,15 @@ impl Expression for Op {
                 };
             }
             Or => {
-                return self
-                    .lhs
-                    .resolve(ctx)?
-                    .try_or(|| self.rhs.resolve(ctx))
-                    .map_err(Into::into);
+                return match self.lhs.resolve(ctx)? {
+                    Null | Boolean(false) => self.rhs.resolve(ctx).map_err(|err| match err {
+                        // `abort` and `return` are control flow: they pass through unchanged.
+                        expression::ExpressionError::Abort { .. }
+                        | expression::ExpressionError::Return { .. } => err,
+                        err => ValueError::Or(err).into(),
+                    }),
+                    value => Ok(value),
+                };
             }
             And => {
                 return match self.lhs.resolve(ctx)? {
